@@ -53,13 +53,13 @@ def _inside_main():
     os._exit(0)
 
 
-def run(module, func, args, timeout=600, keep=False):
+def run(module, func, args, timeout=600, keep=False, pidns=True):
     """run module.func(args, scratch) inside a fresh sandbox; returns its dict"""
     scratch = tempfile.mkdtemp(prefix="gpa-verif.", dir=SCRATCH_ROOT)
     try:
         with open(scratch + "/args.json", "w") as f:
             json.dump({"module": module, "func": func, "args": args}, f)
-        cmd = ["unshare", "-n", "-m", "-p", "--fork", "--kill-child", "--mount-proc",
+        cmd = ["unshare", "-n", "-m"] + (["-p", "--mount-proc"] if pidns else []) + ["--fork", "--kill-child",
                sys.executable, "-m", "vf.sandbox", scratch]
         env = dict(os.environ, PYTHONPATH=common.VERIF, PYTHONUNBUFFERED="1")
         try:
@@ -82,10 +82,10 @@ def run(module, func, args, timeout=600, keep=False):
             shutil.rmtree(scratch, ignore_errors=True)
 
 
-def run_many(module, func, arglist, workers=8, timeout=600):
+def run_many(module, func, arglist, workers=8, timeout=600, pidns=True):
     """parallel sandboxes; yields results in completion order"""
     with concurrent.futures.ThreadPoolExecutor(max_workers=workers) as ex:
-        futs = [ex.submit(run, module, func, a, timeout) for a in arglist]
+        futs = [ex.submit(run, module, func, a, timeout, False, pidns) for a in arglist]
         for fu in concurrent.futures.as_completed(futs):
             yield fu.result()
 
